@@ -115,6 +115,10 @@ fn p03(t: Tier) -> Profile {
     p.p_stale = 110;
     p.max_script = 10;
     p.p_never = 6;
+    // p_post stays 0: polling a future after Ready / a stream after None is
+    // outside the Future/Stream contract (the real wait_until and other
+    // pass-through adapters forward such a poll to their inner stream), so the
+    // harness never does it - see DESIGN.md section 7, seeded change C03-b
     with_big(p, t)
 }
 fn n03(_c: &Case, r: &RunOut) -> bool {
